@@ -1,7 +1,246 @@
-(* C14 — placeholder while the development is being built. *)
-From Coq Require Import ZArith List.
-From LW Require Import Base.Sx Model.Reck Proofs.ReckP.
+(* C14 — Reck mapping reproduces any unitary; noise enters only through the error model.
+   Statements only; every proof is [exact <lemma of Proofs/ReckP.v>].
 
-Theorem C14_steps_2 : length (reck_steps 2) = 1.
-Proof. exact reck_steps_length_2. Qed.
-Print Assumptions C14_steps_2.
+   Reading guide.  Real scalars are Coq's [R], complex numbers are pairs [R * R]
+   ([cplx rops]); [cisR x = (cos x, sin x)] is exp(i x).  [renv eps2 prec uprec2 ints unif norm]
+   is the environment of the model over the reals: cos, sin, sqrt, floor and PI
+   are the real functions; the thresholds (1e-20 squared, check_null precision,
+   unitary precision squared) and the three numpy streams (integers, random,
+   standard_normal) are arbitrary, so every theorem holds for all of them.
+   [meq n A B] is equality of the n x n top-left blocks.
+   [null_update n U T = U @ conj(T.T)], [flip n A = np.flip(A, axis=(0, 1))]. *)
+From Coq Require Import ZArith List Bool Arith Lia Reals Lra.
+From LW Require Import Base.Num Base.Sums Base.Mat Base.Sx Model.Reck Proofs.ReckP.
+Import ListNotations.
+Local Notation Cr := (cplx rops).
+Local Notation mat := (@Mat.mat (R * R)).
+
+(* ------------------------------------------------------------------------- *)
+(* decomposition.py: bs_matrix                                               *)
+(* ------------------------------------------------------------------------- *)
+
+(* bs_matrix(mode1, mode2, theta, phi, n) is unitary for ALL real theta, phi *)
+Theorem C14_bs_matrix_unitary :
+  forall eps2 prec uprec2 ints unif norm (n m1 m2 : nat) (theta phi : R),
+    m1 < n -> m2 < n -> m1 <> m2 ->
+    unitary Cr n (bs_matrix rops (renv eps2 prec uprec2 ints unif norm) m1 m2 theta phi).
+Proof. exact bs_unitary_R. Qed.
+Print Assumptions C14_bs_matrix_unitary.
+
+(* the unit cell emitted by Reck.map for step (i, j) with the default error model,
+     barrier; ps(mode+1, phi); bs(mode); ps(mode, theta); bs(mode)      mode = n - j - 2,
+   compiles to the mode-flipped bs_matrix(j, j+1, theta, phi) for all theta, phi
+   (phase shifters carry the amplitudes exp(i theta), exp(i phi); reflectivity 1/2) *)
+Theorem C14_unit_cell_is_bs_matrix :
+  forall eps2 prec uprec2 ints unif norm (n j : nat) (theta phi : R) (pt pp : phase),
+    S j < n -> ph_amp pt = cisR theta -> ph_amp pp = cisR phi ->
+    meq n
+      (compile rops (renv eps2 prec uprec2 ints unif norm) n
+         [CBarrier [n - j - 2; S (n - j - 2)]; CPS (S (n - j - 2)) pp;
+          CBS (n - j - 2) (S (n - j - 2)) (/ 2)%R; CPS (n - j - 2) pt;
+          CBS (n - j - 2) (S (n - j - 2)) (/ 2)%R])
+      (flip n (bs_matrix rops (renv eps2 prec uprec2 ints unif norm) j (S j) theta phi)).
+Proof. exact unit_cell_R. Qed.
+Print Assumptions C14_unit_cell_is_bs_matrix.
+
+(* ------------------------------------------------------------------------- *)
+(* decomposition.py: one nulling step  unitary = unitary @ conj(tr_ij.T)     *)
+(* contract of np.abs / np.angle:  angle_ok z a  :=  z = |z| (cos a, sin a)  *)
+(* ------------------------------------------------------------------------- *)
+
+(* generic branch: with theta = 2 arctan(|u_ij+1| / |u_ij|), phi = angle(u_ij) - angle(u_ij+1)
+   the target entry (r, j) becomes exactly zero, for every matrix with u_ij <> 0 *)
+Theorem C14_null_step_zeroes_target :
+  forall eps2 prec uprec2 ints unif norm (n : nat) (U : mat) (r j : nat) (a0 a1 : R),
+    S j < n -> r < n -> U r j <> (0, 0)%R ->
+    angle_ok (U r j) a0 -> angle_ok (U r (S j)) a1 ->
+    null_update rops n U
+      (bs_matrix rops (renv eps2 prec uprec2 ints unif norm) j (S j)
+         (2 * atan (cabsR (U r (S j)) / cabsR (U r j)))%R (a0 - a1)%R) r j = (0, 0)%R.
+Proof. exact null_step_generic_R. Qed.
+Print Assumptions C14_null_step_zeroes_target.
+
+(* the |u_ij| < 1e-20 branch (theta = pi, phi = 0) leaves the target entry unchanged:
+   it is exactly zero afterwards iff it was exactly zero before *)
+Theorem C14_null_step_zero_branch :
+  forall eps2 prec uprec2 ints unif norm (n : nat) (U : mat) (r j : nat),
+    S j < n -> r < n ->
+    null_update rops n U (bs_matrix rops (renv eps2 prec uprec2 ints unif norm) j (S j) PI 0%R) r j = U r j.
+Proof. exact null_step_zero_branch_R. Qed.
+Print Assumptions C14_null_step_zero_branch.
+
+(* a step keeps the zeros made earlier: a zero entry outside columns j, j+1 is untouched,
+   and a row that vanishes in both columns keeps both zeros (any theta, phi) *)
+Theorem C14_null_step_keeps_zeros :
+  forall eps2 prec uprec2 ints unif norm (n : nat) (U : mat) (r j x : nat) (theta phi : R),
+    S j < n -> r < n -> x < n -> U r x = (0, 0)%R ->
+    (x = j \/ x = S j -> U r j = (0, 0)%R /\ U r (S j) = (0, 0)%R) ->
+    null_update rops n U (bs_matrix rops (renv eps2 prec uprec2 ints unif norm) j (S j) theta phi) r x
+    = (0, 0)%R.
+Proof. exact null_step_keeps_R. Qed.
+Print Assumptions C14_null_step_keeps_zeros.
+
+(* a step keeps unitarity (any theta, phi) *)
+Theorem C14_null_step_keeps_unitarity :
+  forall eps2 prec uprec2 ints unif norm (n : nat) (U : mat) (j : nat) (theta phi : R),
+    S j < n -> unitary Cr n U ->
+    unitary Cr n (null_update rops n U (bs_matrix rops (renv eps2 prec uprec2 ints unif norm) j (S j) theta phi)).
+Proof. exact null_step_unitary_R. Qed.
+Print Assumptions C14_null_step_keeps_unitarity.
+
+(* ------------------------------------------------------------------------- *)
+(* reck.py: Reck.map with the default error model                            *)
+(* ------------------------------------------------------------------------- *)
+
+(* Whenever reck_decomposition(flip U) returns (it raised neither ValueError from
+   check_unitary nor DecompositionUnsuccessful from check_null) and the nulled matrix is
+   diagonal with entries exp(i end_phase) — what check_null is there to establish —
+   Reck.map succeeds for every size n and every herald dictionary with matching photon
+   numbers; the compiled mapped circuit EQUALS U; the heralds are those of the original;
+   the error model is left as it was; and every component is ([comp_ok]) a barrier, a
+   beam splitter on adjacent modes (m, m+1) with reflectivity 1/2, or a phase shifter on a
+   mode < n whose programmed value lies in [0, 2 pi) and whose amplitude is exp(i value).
+   No loss element is emitted. *)
+Theorem C14_reck_reconstructs :
+  forall eps2 prec uprec2 ints unif norm (fuel n : nat) (U : mat) (hin hout : list (nat * Z))
+         (seed : pyseed) (tok : nat) (ans : nat -> R * R) (endo : nat -> R) (g1 g2 g3 : rng)
+         (dc : decomp),
+    seed <> SeedBad ->
+    reck_decomposition rops (renv eps2 prec uprec2 ints unif norm) n (tab Cr n (flip n U)) ans endo = Ok dc ->
+    (forall a b, a < n -> b < n -> a <> b -> dc_nulled dc a b = (0, 0)%R) ->
+    (forall a, a < n -> dc_nulled dc a a = cisR (endo a)) ->
+    Forall2 (fun x y : nat * Z => snd x = snd y) hin hout ->
+    exists spec,
+      reck_map rops (renv eps2 prec uprec2 ints unif norm) fuel (default_em g1 g2 g3) n U hin hout seed tok ans endo
+        = Ok (mkCirc n spec hin hout, default_em g1 g2 g3) /\
+      meq n (compile rops (renv eps2 prec uprec2 ints unif norm) n spec) U /\
+      Forall (comp_ok n) spec.
+Proof. exact reck_reconstructs_R. Qed.
+Print Assumptions C14_reck_reconstructs.
+
+(* what [comp_ok] says, spelled out on one instance of each component kind *)
+Example C14_comp_ok_meaning :
+  forall n m (p : phase) r,
+    (comp_ok n (CPS m p) <-> m < n /\ (0 <= ph_val p < 2 * PI)%R /\ ph_amp p = cisR (ph_val p)) /\
+    (comp_ok n (CBS m (S m) r) <-> S m = S m /\ S m < n /\ r = (/ 2)%R) /\
+    (comp_ok n (CLoss m r) <-> False).
+Proof. intros. simpl. intuition. Qed.
+
+(* every programmed phase is (v + offset) % (2 pi): with the real modulo it lies in
+   [0, 2 pi) for every real v, and taking the modulo does not change exp(i .) *)
+Theorem C14_programmed_phase_in_range :
+  forall eps2 prec uprec2 ints unif norm (x : R),
+    (0 <= pmod rops (renv eps2 prec uprec2 ints unif norm) x < 2 * PI)%R /\
+    cisR (pmod rops (renv eps2 prec uprec2 ints unif norm) x) = cisR x.
+Proof.
+  exact (fun eps2 prec uprec2 ints unif norm x =>
+           conj (pmod_range eps2 prec uprec2 ints unif norm x) (cisR_pmod eps2 prec uprec2 ints unif norm x)).
+Qed.
+Print Assumptions C14_programmed_phase_in_range.
+
+(* ------------------------------------------------------------------------- *)
+(* dists/*.py: every drawn value lies within the declared bounds             *)
+(* ------------------------------------------------------------------------- *)
+
+(* For Constant, TopHat and the bounded Gaussian with resampling, for EVERY raw numpy
+   stream (TopHat needs Generator.random() in [0, 1)): a value that is returned lies in
+   [dist_lo, dist_hi] (None = unbounded); drawing changes neither the distribution nor the
+   generator's seed, only advances its position.  [dist_valid] (min <= max for TopHat) is
+   what the constructors guarantee, see the next theorem. *)
+Theorem C14_draws_in_bounds :
+  forall (E : env) (fuel : nat) (x x' : dobj) (v : R),
+    dist_valid (d_dist x) -> (forall src k, (0 <= e_unif E src k < 1)%R) ->
+    dist_value rops E fuel x = Ok (v, x') ->
+    in_bounds (d_dist x) v /\ d_dist x' = d_dist x /\ r_src (d_rng x') = r_src (d_rng x) /\
+    r_pos (d_rng x) <= r_pos (d_rng x').
+Proof. exact draws_in_bounds. Qed.
+Print Assumptions C14_draws_in_bounds.
+
+Theorem C14_constructed_distributions_valid :
+  (forall v x, mk_const (K:=R) v = Ok x -> dist_valid (d_dist x)) /\
+  (forall lo hi g x, mk_tophat rops lo hi g = Ok x -> dist_valid (d_dist x)) /\
+  (forall c d lo hi g x, mk_gauss rops c d lo hi g = Ok x -> dist_valid (d_dist x)).
+Proof. exact (conj mk_const_valid (conj mk_tophat_valid mk_gauss_valid)). Qed.
+Print Assumptions C14_constructed_distributions_valid.
+
+(* what [in_bounds] says for the three kinds *)
+Example C14_in_bounds_meaning :
+  forall (a b c d v : R),
+    (in_bounds (DConst a) v <-> (a <= v /\ v <= a)%R) /\
+    (in_bounds (DTopHat a b) v <-> (a <= v /\ v <= b)%R) /\
+    (in_bounds (DGauss c d (Some a) (Some b)) v <-> (a <= v /\ v <= b)%R) /\
+    (in_bounds (DGauss c d None (Some b)) v <-> (True /\ v <= b)%R).
+Proof. intros. unfold in_bounds. simpl. tauto. Qed.
+
+(* non-vacuity: a Gaussian(1/2, 1, min 0, max 1) whose first raw normal draw is 3 (value 3.5,
+   rejected) and second is 0 (value 1/2, accepted) returns 1/2 after consuming two draws *)
+Example C14_draws_in_bounds_nonvacuous :
+  let E := renv 0 0 0 (fun _ _ => 0%Z) (fun _ _ => 0%R) (fun _ k => if Nat.eqb k 0 then 3%R else 0%R) in
+  let x := mkDobj (DGauss (/ 2) 1 (Some 0) (Some 1))%R (mkRng (Seeded 7) 0) in
+  dist_valid (d_dist x) /\ (forall src k, (0 <= e_unif E src k < 1)%R) /\
+  dist_value rops E 5 x = Ok ((/ 2 + 1 * 0)%R, mkDobj (d_dist x) (mkRng (Seeded 7) 2)).
+Proof.
+  simpl. split; [exact Logic.I|]. split; [intros; lra|].
+  unfold dist_value. simpl.
+  destruct (Rle_dec 0 1) as [_|H]; [|exfalso; lra]. unfold kltb, below, above, kltb. simpl. unfold rleb.
+  repeat (match goal with |- context [Rle_dec ?a ?b] => destruct (Rle_dec a b); try (exfalso; lra) end; simpl).
+  reflexivity.
+Qed.
+
+(* ------------------------------------------------------------------------- *)
+(* error_model.py: the seed determines everything                            *)
+(* ------------------------------------------------------------------------- *)
+
+(* After _set_random_seed(s), s an integer, the complete error-model state (the three
+   distributions and the state of every generator) is a function of the distributions
+   and s only: two models with the same distributions ([same_dists]) and arbitrary prior
+   generator states / draw histories / entropy tokens end in the SAME state.
+   [wf_em]: a Constant carries no generator (a fixed placeholder), as built by mk_const. *)
+Theorem C14_seed_determines_error_model :
+  forall (E : env (K:=R)) (em1 em2 : emodel) (s : Z) (tok1 tok2 : nat),
+    wf_em em1 -> wf_em em2 -> same_dists em1 em2 ->
+    set_random_seed E em1 (SeedInt s) tok1 = set_random_seed E em2 (SeedInt s) tok2.
+Proof. exact set_random_seed_determined. Qed.
+Print Assumptions C14_seed_determines_error_model.
+
+(* explicitly: the k-th distribution that owns a generator (in the order bs_reflectivity,
+   loss, phase_offset) is re-seeded with default_rng(k-th integer drawn from default_rng(s))
+   at position 0; each one is re-seeded; constants are untouched *)
+Theorem C14_seed_derivation :
+  forall (E : env (K:=R)) (em : emodel) (s : Z) (tok : nat),
+    exists em', set_random_seed E em (SeedInt s) tok = Ok em' /\
+      same_dists em em' /\
+      (has_rng (d_dist (em_bs em)) = true -> d_rng (em_bs em') = mkRng (Seeded (e_ints E s 0)) 0) /\
+      (has_rng (d_dist (em_loss em)) = true ->
+         d_rng (em_loss em') = mkRng (Seeded (e_ints E s (nrand [d_dist (em_bs em)]))) 0) /\
+      (has_rng (d_dist (em_phase em)) = true ->
+         d_rng (em_phase em') = mkRng (Seeded (e_ints E s (nrand [d_dist (em_bs em); d_dist (em_loss em)]))) 0) /\
+      (has_rng (d_dist (em_bs em)) = false -> em_bs em' = em_bs em) /\
+      (has_rng (d_dist (em_loss em)) = false -> em_loss em' = em_loss em) /\
+      (has_rng (d_dist (em_phase em)) = false -> em_phase em' = em_phase em).
+Proof. exact set_random_seed_rngs. Qed.
+Print Assumptions C14_seed_derivation.
+
+(* the same seed gives the same mapped circuit (and the same final error-model state, and
+   the same exception if any), whatever the error model was used for before: Reck.map is
+   a function of (circuit, heralds, distributions, seed) *)
+Theorem C14_seed_determines_map :
+  forall (E : env (K:=R)) (fuel : nat) (em1 em2 : emodel) (n : nat) (U : mat)
+         (hin hout : list (nat * Z)) (s : Z) (tok1 tok2 : nat) (ans : nat -> R * R) (endo : nat -> R),
+    wf_em em1 -> wf_em em2 -> same_dists em1 em2 ->
+    reck_map rops E fuel em1 n U hin hout (SeedInt s) tok1 ans endo =
+    reck_map rops E fuel em2 n U hin hout (SeedInt s) tok2 ans endo.
+Proof. exact (reck_map_seed_determined rops). Qed.
+Print Assumptions C14_seed_determines_map.
+
+(* non-vacuity: two error models TopHat / Constant / Gaussian that differ in every generator
+   state satisfy the hypotheses *)
+Example C14_seed_hypotheses_nonvacuous :
+  let em g1 g3 := mkEm (mkDobj (DTopHat 0 1)%R g1) (mkDobj (DConst 0%R) norng)
+                       (mkDobj (DGauss 0 1 None None)%R g3) in
+  wf_em (em (mkRng (Entropy 3) 17) (mkRng (Seeded 5) 2)) /\
+  wf_em (em (mkRng (Seeded 9) 0) (mkRng (Entropy 1) 40)) /\
+  same_dists (em (mkRng (Entropy 3) 17) (mkRng (Seeded 5) 2)) (em (mkRng (Seeded 9) 0) (mkRng (Entropy 1) 40)).
+Proof.
+  unfold wf_em, wf_dobj, same_dists. simpl. repeat split; intros; try reflexivity; discriminate.
+Qed.
